@@ -129,13 +129,6 @@ impl Park {
         }
     }
 
-    #[inline]
-    fn fast_wake_up(&self) {
-        if let Some(co) = self.wait_co.take() {
-            run_coroutine(co);
-        }
-    }
-
     /// park current coroutine with specified timeout
     /// if timeout happens, return Err(ParkError::Timeout)
     /// if cancellation detected, return Err(ParkError::Canceled)
@@ -148,9 +141,7 @@ impl Park {
         #[cfg(may_verif)]
         may_queue::verif::point(may_queue::verif::site::PARK_CHECKED, Arc::as_ptr(&self.wait_co) as usize);
         // before a new yield wait the kernel done
-        while self.wait_kernel.load(Ordering::Acquire) {
-            yield_now();
-        }
+        self.wait_kernel_done();
 
         self.timeout.store(dur);
 
@@ -180,6 +171,38 @@ impl Park {
         Ok(())
     }
 
+    // wait until `subscribe` no longer touches this park. a cancelled coroutine
+    // must not raise its cancel panic from here: the caller may already own
+    // what it was waiting for (a lock, a permit) and would never release it
+    fn wait_kernel_done(&self) {
+        if !self.wait_kernel.load(Ordering::Acquire) {
+            return;
+        }
+        if std::thread::panicking() {
+            // a coroutine must not be switched out while it unwinds, the panic
+            // count belongs to the thread. the flag is held by another thread
+            // that is about to leave `subscribe`, just let it run
+            while self.wait_kernel.load(Ordering::Acquire) {
+                std::thread::yield_now();
+            }
+            return;
+        }
+        let cancel = if crate::coroutine_impl::is_coroutine() {
+            Some(crate::coroutine_impl::current_cancel_data())
+        } else {
+            None
+        };
+        if let Some(c) = cancel {
+            c.disable_cancel();
+        }
+        while self.wait_kernel.load(Ordering::Acquire) {
+            yield_now();
+        }
+        if let Some(c) = cancel {
+            c.enable_cancel();
+        }
+    }
+
     fn delay_drop(&self) -> DropGuard<'_> {
         self.wait_kernel.store(true, Ordering::Release);
         DropGuard(self)
@@ -195,9 +218,7 @@ impl Drop for DropGuard<'_> {
 impl Drop for Park {
     fn drop(&mut self) {
         // wait the kernel finish
-        while self.wait_kernel.load(Ordering::Acquire) {
-            yield_now();
-        }
+        self.wait_kernel_done();
 
         self.set_timeout_handle(None);
     }
@@ -230,7 +251,14 @@ impl EventSource for Park {
         if self.state.load(Ordering::Acquire) {
             // here may have recursive call for subscribe
             // normally the recursion depth is not too deep
-            return self.fast_wake_up();
+            // we are done with the park: release it first, the coroutine
+            // runs on this thread and may have to wait for that
+            let co = self.wait_co.take();
+            drop(_g);
+            if let Some(co) = co {
+                run_coroutine(co);
+            }
+            return;
         }
 
         #[cfg(may_verif)]
